@@ -12,6 +12,10 @@ class VsimError(Exception):
     pass
 
 
+class VsimOutOfRange(VsimError):
+    """a memory word outside the declared range was read (x in Verilog, clamped by Migen's simulator: semantic-gap class iv)"""
+
+
 # ------------------------------------------------------------------------------------ tokenizer
 
 _TOK = re.compile(r"""
@@ -566,7 +570,7 @@ class Module:
             if base.k == "id" and base.a[0] in self.mems:
                 mem = self.m[base.a[0]]
                 if i >= len(mem):
-                    raise VsimError("memory %s read out of range (%d)" % (base.a[0], i))
+                    raise VsimOutOfRange("memory %s read out of range (%d)" % (base.a[0], i))
                 x = mem[i]
             else:
                 x = (self.ev(base, base.L, base.S) >> i) & 1
